@@ -183,13 +183,28 @@ def run_unit(template, tier='quick', keep=True, extra_defs=None, repo=None, buil
                 return None, 'goto-instrument --apply-loop-contracts failed (see %s)' % os.path.join(bdir, tag + '.gi1.log')
             cur = b
         if info['enforce'] or info['replace']:
-            cmd = ['goto-instrument']
-            for f in info['enforce']:
-                cmd += ['--enforce-contract', f]
-            for g in info['replace']:
-                cmd += ['--replace-call-with-contract', g]
-            cmd += [cur, c]
-            rc, _ = run(cmd, os.path.join(bdir, tag + '.gi2.log'), 600, mem)
+            replace = list(info['replace'])
+            for attempt in range(len(replace) + 1):
+                cmd = ['goto-instrument']
+                for f in info['enforce']:
+                    cmd += ['--enforce-contract', f]
+                for g in replace:
+                    cmd += ['--replace-call-with-contract', g]
+                cmd += [cur, c]
+                if os.path.exists(c):
+                    os.remove(c)
+                rc, _ = run(cmd, os.path.join(bdir, tag + '.gi2.log'), 600, mem)
+                if rc == 0 and os.path.exists(c):
+                    break
+                # a callee that the body no longer calls is not in the goto program: drop it from the replace list
+                # (the missing call is then judged by the enforced contract) and try again
+                lg = open(os.path.join(bdir, tag + '.gi2.log'), errors='replace').read()
+                mm = re.search(r"Function '(\w+)' was not found in the GOTO program", lg)
+                if mm and mm.group(1) in replace:
+                    replace.remove(mm.group(1))
+                    res.setdefault('replace_targets_not_called', []).append(mm.group(1))
+                    continue
+                break
             res['cmds'].append(' '.join(cmd))
             if rc != 0 or not os.path.exists(c):
                 return None, 'goto-instrument contracts failed (see %s)' % os.path.join(bdir, tag + '.gi2.log')
@@ -305,6 +320,10 @@ def run_unit(template, tier='quick', keep=True, extra_defs=None, repo=None, buil
     if info['enforce'] and any(o.get('function') == info['entry'] and str(o.get('file', '')).startswith('src/xercesc')
                                for o in obligations):
         guard_err = 'guard: extracted code was inlined into the harness (a loop in the harness?) -- --enforce-contract bypassed'
+    # --replace-call-with-contract also replaces the harness's own call, so the enforced body would be unreachable
+    # (every obligation in it trivially SUCCESS): a function must not be both enforced and replaced in one unit
+    if set(info['enforce']) & set(info['replace']):
+        guard_err = 'guard: %s both enforced and replaced in one unit (the enforced body is unreachable)' % sorted(set(info['enforce']) & set(info['replace']))
     # every ensures clause of an enforced contract must show as a postcondition obligation
     if info['enforce']:
         n_post = sum(1 for o in obligations if re.search(r'[Cc]heck ensures clause|postcondition', o['description']))
